@@ -313,7 +313,9 @@ SITES = ['after_open', 'after_target', 'after_kv_comma', 'after_semi', 'before_s
 CTX_BEFORE = ['', '  ', '\t', '{ ', '; ', '=> ', 'return ', 'break ', 'let _ = ', 'x = ', '} else { ', '|e| ', 'foo(); ', '/* c */ ',
               '"s" ', 'é; ', "let c = '\"'; ", "m(b'\"'); ", 'let r = r#"x"y"#; ',
               # the statement inside a macro invoked with braces / brackets (select!, cfg_if!, thread_local!, vec!)
-              'tokio::select! { v = rx.recv() => { ', 'm!{ a = ', 'v![k = ', 'thread_local! { static A: u8 = { ', 'cfg_if! { if #[cfg(x)] { ']
+              'tokio::select! { v = rx.recv() => { ', 'm!{ a = ', 'v![k = ', 'thread_local! { static A: u8 = { ', 'cfg_if! { if #[cfg(x)] { ',
+              # ordinary literals with comment-like or macro-like text before the statement on its line
+              'let u = "http://h"; ', 'let g = "src/*"; ', 'let r = r#"x // y "z" "#; ', 'let s = "see info!("; ', "let q = ('\\'', b'/', '/'); "]
 CTX_AFTER = [';\n', ')\n', ' }\n', ',\n', ';', '; "done" } }\n', '; "lit" ]\n']   # index 4: end of file without a newline
 
 
